@@ -268,8 +268,12 @@ def build_app(glue="flask"):
             return SECRET
 
     class C:
+        # the secret is compared the way the repository's own client mixin compares it
+        client_secret = property(lambda self: store.reg[self.cid]["client_secret"])
+
         def check_client_secret(self, secret):
-            return secret == store.reg[self.cid]["client_secret"]
+            from authlib.integrations.sqla_oauth2 import OAuth2ClientMixin
+            return OAuth2ClientMixin.check_client_secret(self, secret)
 
         def __init__(self, cid):
             self.cid = cid
@@ -492,7 +496,7 @@ BASE = {
                                        "initiate_login_uri": "https://x.example/login", "request_object_signing_alg": "RS256", "request_uris": ["https://x.example/r"],
                                        "token_endpoint_auth_signing_alg": "RS256"},
                  {"Authorization": "Bearer init-token"}, "json"),
-    "configure": ("PUT", "/register/cid1", {"client_id": "cid1", "redirect_uris": ["https://x.example/cb"], "client_name": "n"}, {"Authorization": "Bearer reg-token-cid1"}, "json"),
+    "configure": ("PUT", "/register/cid1", {"client_id": "cid1", "client_secret": "sec1", "redirect_uris": ["https://x.example/cb"], "client_name": "n"}, {"Authorization": "Bearer reg-token-cid1"}, "json"),
     "api": ("GET", "/api", {}, {"Authorization": "Bearer AT"}, "query"),
     "token:jwt_bearer": ("POST", "/token", {"grant_type": "urn:ietf:params:oauth:grant-type:jwt-bearer", "assertion": mk_jwt(*JWT_BASES["grant-assertion"]), "scope": "a"}, {}, "form"),
     "token:client_assertion": ("POST", "/token", {"grant_type": "client_credentials", "scope": "a", "client_assertion_type": "urn:ietf:params:oauth:client-assertion-type:jwt-bearer",
